@@ -162,6 +162,9 @@ func vgErrClass(err error) string {
 		return "notsupported"
 	case strings.Contains(s, "invalid id"):
 		return "invalidid"
+	case strings.HasPrefix(s, "abnormal winner"):
+		// VoteResult.Sync could not parse the winning candidate: the tx fails AFTER vpr.apply
+		return "abnormal"
 	case strings.HasPrefix(s, "the number of args less"):
 		return "toofew"
 	}
